@@ -121,22 +121,27 @@ CLAIMED = {
              "unchanged (every parameter, no extra ones), rename removes the old name and renames the references in the element table; "
              "the real change_std_type sets every column the type defines to the type's value, leaves the other columns and all other "
              "rows unchanged and sets std_type, whatever the row held before; the real create_line / create_transformer / "
-             "create_transformer3w hand every parameter the type defines (that is a column of the element table) to the element table "
-             "with the type's value.",
+             "create_transformer3w and the batch functions create_lines / create_transformers3w hand every parameter the type defines "
+             "(that is a column of the element table) to the element table with the type's value (for every row of a batch of any size).",
         note="Assumed: element tables have the documented columns; zero-sequence line parameters come together; _set_entries / "
-             "pd.DataFrame(entries) write the dict they receive. Not decided: fuse types, parameter_from_std_type, the calculation "
+             "pd.DataFrame(entries) write the dict they receive. Not decided: fuse types, parameter_from_std_type, create_transformers (known finding of C24), the calculation "
              "reading the table (C02)."),
     "C24": dict(
         text="Relational proof on the real create functions: the single call is run for the generic element of a batch of any size, the "
              "batch call for the whole batch, and the dicts handed to the element table are compared column by column (equal, or "
              "absent/NaN in both) for create_transformer3w_from_parameters / create_transformers3w_from_parameters (all parameters "
              "incl. the tap_pos default), create_transformer3w / create_transformers3w, create_transformer / create_transformers and "
-             "create_line / create_lines (all values taken from a standard type with symbolic values and parameter presence). The "
+             "create_line / create_lines (all values taken from a standard type with symbolic values and parameter presence), and for "
+             "the load, gen, storage, shunt, ward and impedance pairs with the argument lists read from the real signatures on every run "
+             "(every numeric / flag parameter symbolic, NaN-able ones with a symbolic NaN flag; three explorations: all given, "
+             "None-default parameters left out, required only - so derived values and the defaults of both signatures are compared). The "
              "other create pairs and the rejection behaviour are a bounded stand-in (native runs on fixed vectors), labelled bounded. "
              "create_transformers dropping the tap changer and shift of the type is the recorded known finding.",
         note="Assumed: _set_entries / _set_multiple_entries write the dict they get; the optional-column helpers write a value iff it is "
-             "not NaN/None; a NaN argument of a single call is numpy's nan object. Not decided deductively: bus/load/sgen/gen/storage/"
-             "shunt/ward/switch/impedance/cost pairs, duplicate-index and missing-bus checks (bounded stand-in only)."),
+             "not NaN/None; a NaN argument of a single call is numpy's nan object. String-valued parameters keep their defaults in both calls; "
+             "argument values the single call refuses with a UserWarning are outside the compared domain. Not decided deductively: "
+             "bus/sgen/switch/cost pairs, create_line(s)_from_parameters, create_transformer(s)_from_parameters, duplicate-index and "
+             "missing-bus checks (bounded stand-in only)."),
     "C32": dict(
         text="Proof on the real class text (Characteristic, SplineCharacteristic with interp1d and Pchip, LogSplineCharacteristic, "
              "default_interp1d) for support points of any number: c(x[k]) == y[k]; the interpolator is built from the stored support "
